@@ -232,6 +232,8 @@ func genSrvScenario(rng *rand.Rand, cfg string) string {
 }
 
 var srvTemplates = []string{
+	"- c1;m1.100;g1.7;h1.7;q1.8;c2;w2.9;w1.10",
+	"- c1;he1.4;q1.5;he1.7;c2;he2.8;q1.9;sh;j",
 	"1 ch1;xh;ra",
 	"- c1;dh1;c2;rc1;q2.1;d2",
 	"- c1;c2;dh2;c3;q1.1;rc2;q3.2",
@@ -274,6 +276,8 @@ var srvTemplatesC15 = []string{
 	"- c1;q1.1;g1.2;d1;c2;q2.3;q2.4",
 	"- c1;g1.5;h1.5;q1.6;c2;g2.7;q1.8;h2.7;d1;d2",
 	"- c1;m1.100;q1.7;c2;m2.200;q1.8;m1.300;d1;q2.9",
+	"- c1;m1.100;g1.7;h1.7;q1.8;c2;w2.9;w1.10",
+	"- c1;he1.4;q1.5;he1.7;c2;he2.8;q1.9;sh;j",
 }
 
 func init() {
